@@ -46,7 +46,7 @@ fn main() {
 fn dispatch(toks: &[&str]) -> String {
     match toks[0] {
         "tag_list" | "tag_parse" | "tag_cmp" | "sub" | "sub_cmp" | "sub_list" | "tag_rt" => tagcases::run(toks),
-        "cmd_build" | "cmd_args" | "cmd_list" | "escape" => cmdcases::run(toks),
+        "cmd_build" | "cmd_args" | "cmd_list" | "cmd_biglist" | "escape" => cmdcases::run(toks),
         "recv" | "conn" | "bigbin" => conncases::run(toks),
         "frame" | "resp" => framecases::run(toks),
         "loop" => loopcases::run(toks),
